@@ -53,16 +53,19 @@ type class struct {
 	name   string
 	bc     catalog.BodyClass
 	stream string // s3c stream mode ("" = plain body)
+	cut    bool   // the client stops inside the body and half-closes; X-Amz-Decoded-Content-Length names the bytes really sent
 }
 
 var (
-	clsEmpty  = class{"empty", catalog.BodyEmpty, ""}
-	clsValid  = class{"valid", catalog.BodyValid, ""}
-	clsBig    = class{"big", catalog.BodyBig, ""}
-	clsSigned = class{"chunk-signed", catalog.BodyValid, s3c.StreamSigned}
-	clsSignTr = class{"chunk-signed-trailer", catalog.BodyValid, s3c.StreamSignedTr}
-	clsUnsTr  = class{"chunk-unsigned-trailer", catalog.BodyValid, s3c.StreamUnsignTr}
-	clsUnsBig = class{"chunk-unsigned-trailer-big", catalog.BodyBig, s3c.StreamUnsignTr}
+	clsEmpty  = class{"empty", catalog.BodyEmpty, "", false}
+	clsValid  = class{"valid", catalog.BodyValid, "", false}
+	clsBig    = class{"big", catalog.BodyBig, "", false}
+	clsSigned = class{"chunk-signed", catalog.BodyValid, s3c.StreamSigned, false}
+	clsSignTr = class{"chunk-signed-trailer", catalog.BodyValid, s3c.StreamSignedTr, false}
+	clsUnsTr  = class{"chunk-unsigned-trailer", catalog.BodyValid, s3c.StreamUnsignTr, false}
+	clsUnsBig = class{"chunk-unsigned-trailer-big", catalog.BodyBig, s3c.StreamUnsignTr, false}
+	// abnormal end of the request: the verdict on the signature must not depend on the body arriving completely
+	clsCutDL = class{"big-cut+decoded-length", catalog.BodyBig, "", true}
 )
 
 type plan struct {
@@ -324,6 +327,11 @@ func build(e *catalog.Entry, a catalog.Args, cls class, rng *rand.Rand, now time
 			rq.Stream.TrailerName = "x-amz-checksum-" + []string{"crc32", "crc32c", "sha1", "sha256", "crc64nvme"}[rng.Intn(5)]
 		}
 	}
+	if cls.cut && len(rq.Body) > 40000 {
+		n := 9000 + rng.Intn(30000)
+		rq.CloseAfter = n
+		rq.Header = append(rq.Header, [2]string{"X-Amz-Decoded-Content-Length", strconv.Itoa(n)})
+	}
 	return rq
 }
 
@@ -553,6 +561,7 @@ func plans(c *ev.Ctx, e *catalog.Entry, a catalog.Args, defs []*defect, rng *ran
 	var streams []class
 	if e.Streamable {
 		streams = []class{clsSigned, clsSignTr, clsUnsTr}
+		streams = append(streams, clsCutDL)
 		if c.Thorough() {
 			// no signed 1 MiB stream: the signed chunk reader of the pinned tree fails (500) on some
 			// socket fragmentations of a correct stream - that is C12's subject and would make the
@@ -561,7 +570,11 @@ func plans(c *ev.Ctx, e *catalog.Entry, a catalog.Args, defs []*defect, rng *ran
 		}
 	}
 	controls = []class{clsValid}
-	controls = append(controls, streams...)
+	for _, cl := range streams {
+		if !cl.cut {
+			controls = append(controls, cl)
+		}
+	}
 	probe := e.Request(a, catalog.BodyEmpty).Req()
 	usable := func(d *defect, cl class) bool { return d.applies(e, cl, probe) }
 	if c.Thorough() {
@@ -642,6 +655,8 @@ func (w *worker) endpoint(e *catalog.Entry) {
 		switch {
 		case cl.name == clsUnsBig.name:
 			return liveBy[clsUnsTr.name+"|"+acct]
+		case cl.cut:
+			return liveBy[clsValid.name+"|"+acct]
 		case cl.stream != "":
 			return liveBy[cl.name+"|"+acct]
 		}
